@@ -4,7 +4,7 @@ use super::*;
 use crate::__venv as env;
 use crate::__vsup::*;
 
-fn mk_counter<P: Atomic>(init: P::T) -> GenericCounter<P> {
+pub(crate) fn mk_counter<P: Atomic>(init: P::T) -> GenericCounter<P> {
     GenericCounter { v: Arc::new(mk_value::<P>(init, ValueType::Counter)) }
 }
 
